@@ -154,7 +154,7 @@ pub fn generate(rng: &mut Rng, _focus: &str, thorough: bool) -> Case {
             hash_seed: rng.next(),
         },
         6..=8 => {
-            let inner_prop = *rng.pick(&["C03", "C14", "C04", "C04", "C02", "C16", "C14", "C10", "C06"]);
+            let inner_prop = *rng.pick(&["C03", "C14", "C04", "C04", "C02", "C13", "C16", "C14", "C10", "C06"]);
             let inner = cases::generate_world(inner_prop, "C18", rng, thorough);
             Case::HashRepeat { inner: Box::new(inner), seed_a: rng.next(), seed_b: rng.next(), hash_seed: rng.next() }
         }
